@@ -15,3 +15,5 @@ if not ok:
     sys.exit(1)
 print("replay tool:", "ok" if replay.build_replay_tool() else "FAILED")
 PY
+# stand-in crates vs the real swc_core / css_dataset (names and field types)
+python3 tools/conformance.py | tail -1
